@@ -160,7 +160,9 @@ func customOut(g *protogen.GeneratedFile, method *protogen.Method) string {
 	customOutType := fmt.Sprintf("%v", proto.GetExtension(ext, gorums.E_CustomReturnType))
 	outType := method.Output.GoIdent
 	if customOutType != "" {
-		outType.GoName = customOutType
+		// the custom return type is a message of the proto file being generated,
+		// also when the method's output type is imported from another package
+		return customOutType
 	}
 	return g.QualifiedGoIdent(outType)
 }
